@@ -439,6 +439,39 @@ def c03_foreign_thread_submission_reaches_an_idle_loop():
     return out
 
 
+def c07_shutdown_while_a_flush_is_requested():
+    """C07: the buffer's background task is cancelled (what loop shutdown does) around the moment a wait() asks
+    for a flush: it always terminates."""
+    from aiuti.asyncio import BufferAsyncCalls
+
+    async def one(k):
+        async def func(args):
+            await aio.sleep(0)
+        buf = BufferAsyncCalls(func, timeout=1000)
+        buf(1)
+        await _turns(4)
+        w = aio.ensure_future(buf.wait())
+        await _turns(k)
+        buf._waiting.cancel()
+        await _turns(25)
+        ok = buf._waiting.done()
+        for t in (w, buf._waiting):
+            t.cancel()
+        await aio.gather(w, buf._waiting, return_exceptions=True)
+        if not ok:
+            return ['C07: the background task, cancelled %d loop turns after a wait() began (flush request '
+                    'outstanding), is still running 25 turns later: its cancellation was taken for the flush' % k]
+        return []
+
+    async def sc():
+        for k in range(0, 7):
+            out = await one(k)
+            if out:
+                return out
+        return []
+    return _run(sc)
+
+
 def c08_wait_from_anywhere_without_flush():
     """C08: wait_from_anywhere(cancel=False) is not a flush request: the burst still goes out in ONE call,
     timeout after its last submission."""
@@ -925,6 +958,7 @@ SCENARIOS = {
     'C16': [c16_producer_far_ahead_of_the_consumer],
     'C17': [c17_every_kind_of_awaitable_crosses_loops],
     'C20': [c20_every_kind_of_awaitable_and_failure],
+    'C07': [c07_shutdown_while_a_flush_is_requested],
     'C08': [c08_wait_from_anywhere_without_flush],
 }
 
